@@ -10,6 +10,8 @@
 From Coq Require Import ZArith List Bool.
 From PV.Model Require Import Codec.
 From PV.Proofs Require Import CodecProofs.
+From PV.Model Require VolDesc.
+From PV.Proofs Require VolDescProofs VolDescPairProofs.
 Import ListNotations.
 Local Open Scope Z_scope.
 
@@ -44,3 +46,43 @@ Proof. exact date7_roundtrip. Qed.
 
 (* the model's layout is the generated struct layout *)
 Definition C05_layout_is_generated := dr_header_len.
+
+(* ---- volume descriptors: Model/VolDesc.v (hand model of headervd.py record()/parse(); tied by vdleaf.py on the
+   descriptor sectors of every generated image) ------------------------------------------------------------------ *)
+Section VolDescStatements.
+Import Codec CodecProofs VolDesc VolDescProofs VolDescPairProofs.
+Local Open Scope Z_scope.
+
+Theorem C05_vd_is_one_sector : forall now v b, record_vd now v = Some b -> length b = 2048%nat.
+Proof. exact VolDescProofs.record_vd_length. Qed.
+
+(* PVD, Joliet SVD (three levels) and the version-2 enhanced VD: parse . record is the identity except for the
+   modification date, which record() stamps with the current time -- exactly the field the property masks *)
+Theorem C05_vd_roundtrip : forall now v, vd_ok v = true -> vddate_ok now = true ->
+  exists b, record_vd now v = Some b /\ length b = 2048%nat /\
+            parse_vd (vd_type v) b = Some (vd_set_mdate now v).
+Proof. exact VolDescProofs.vd_roundtrip. Qed.
+
+(* both-endian discipline: altering either half of any both-endian pair of a recorded descriptor makes parse refuse it *)
+Theorem C05_vd_parse_rejects_altered_half : forall now v b ty i x,
+  record_vd now v = Some b -> In i pair_halves -> bytes x -> length x = pair_width i ->
+  x <> firstn (pair_width i) (skipn (pair_offset i) b) ->
+  parse_vd ty (splice (pair_offset i) x b) = None.
+Proof. exact VolDescPairProofs.parse_rejects_altered_half. Qed.
+
+Theorem C05_vdst_roundtrip : length record_vdst = 2048%nat /\ parse_vdst record_vdst = Some tt.
+Proof. exact VolDescProofs.vdst_roundtrip. Qed.
+
+Theorem C05_boot_record_roundtrip : forall b, br_ok b = true -> parse_br (record_br b) = Some b.
+Proof. exact VolDescProofs.br_roundtrip. Qed.
+
+(* the space counters: one add and one remove of the same amount cancel, but the per-call rounding is not additive --
+   the mechanism behind several accounting defects that were repaired (rm_eltorito, path tables) *)
+Theorem C05_space_add_remove_same : forall s l n, remove_from_space_size (add_to_space_size s l n) l n = s.
+Proof. exact VolDescPairProofs.add_remove_same. Qed.
+
+Theorem C05_space_accounting_not_additive_refuted :
+  exists s l a b, 0 < l /\ 0 <= a /\ 0 <= b /\
+    remove_from_space_size (add_to_space_size (add_to_space_size s l a) l b) l (a + b) <> s.
+Proof. exact VolDescPairProofs.space_accounting_not_additive_refuted. Qed.
+End VolDescStatements.
